@@ -345,7 +345,7 @@ def stage_pipeline(batch, inputs, registry, cmps, dict_fields=(), dict_regex=(),
         return ans
     req = {"op": "pipeline", "cfg": cfg, "orc": orc, "cmps": enc_cmps(cmps),
            "in": [[n, [conv.enc_json(s) for s in ss]] for n, ss in inputs]}
-    batch.add(req, ans, {"inputs": inputs, "project": "pipeline", "parts": parts})
+    batch.add(req, ans, {"inputs": inputs, "project": "pipeline", "parts": parts, "cmps": enc_cmps(cmps)})
     return ans
 
 
@@ -495,7 +495,7 @@ def stage_render(batch, inputs, registry, cmps, jobs, dict_fields=(), dict_regex
     req = {"op": "pipeline", "cfg": cfg, "orc": orc, "cmps": enc_cmps(cmps),
            "in": [[n, [conv.enc_json(s) for s in ss]] for n, ss in inputs],
            "render": jobs, "consts": render_consts(registry)}
-    batch.add(req, {"ok": outs}, {"inputs": inputs, "jobs": jobs, "project": "render"})
+    batch.add(req, {"ok": outs}, {"inputs": inputs, "jobs": jobs, "project": "render", "cmps": enc_cmps(cmps)})
     return {"ok": outs}
 
 
